@@ -20,7 +20,9 @@ import (
 	"sync/atomic"
 	"time"
 
+	"github.com/mattn/anko/core"
 	"github.com/mattn/anko/env"
+	_ "github.com/mattn/anko/packages"
 	"github.com/mattn/anko/vm"
 	"verifharness/internal/tlcout"
 )
@@ -217,9 +219,57 @@ func seq(in, out string) {
 			}
 		}
 	}
+	// FIFO per channel (AnkoChan's invariant) when ONE invocation works on several channels at once: a loop over one channel whose body receives from /
+	// sends to others; and "converted to the channel's element type" for element types that are DEFINED scalar types
+	two := []struct {
+		name, src string
+		exp       interface{}
+	}{
+		{"range-a-recv-b", "for v in a {\n w = <-b\n got += v * 100 + w\n}\ngot", []interface{}{int64(110), int64(220), int64(330)}},
+		{"range-a-recvok-b", "for v in a {\n w, ok = <-b\n got += v * 100 + w\n}\ngot", []interface{}{int64(110), int64(220), int64(330)}},
+		{"range-a-range-b1", "for v in a {\n for x in b1 {\n  got += x\n }\n got += v\n}\ngot", []interface{}{int64(7), int64(1), int64(2), int64(3)}},
+		{"range-a-send-d-recv-b", "for v in a {\n d <- v\n w = <-b\n got += (<-d) * 100 + w\n}\ngot", []interface{}{int64(110), int64(220), int64(330)}},
+		{"range-a-relay", "for v in a {\n d <- b\n got += v * 100 + (<-d)\n}\ngot", []interface{}{int64(110), int64(220), int64(330)}},
+		{"recv-both-in-expr", "got += (<-a) * 100 + (<-b)\ngot += (<-b) * 100 + (<-a)\ngot", []interface{}{int64(110), int64(2002)}},
+		{"range-in-func", "func f() {\n for v in a {\n  w = <-b\n  got += v * 100 + w\n }\n}\nf()\ngot", []interface{}{int64(110), int64(220), int64(330)}},
+		{"switch-a-recv-b", "for i = 0; i < 3; i++ {\n switch <-a {\n case 1:\n  got += <-b\n case 2:\n  got += (<-b) + 1\n default:\n  got += -1\n }\n}\ngot", []interface{}{int64(10), int64(21), int64(-1)}},
+		{"defined-elem-send-plain", "c = make(chan Level, 2)\nc <- 5\nc <- lv\nx = <-c\ny = <-c\n[levelName(x), levelName(y)]", []interface{}{"Level(5)", "Level(7)"}},
+		{"defined-elem-range", "c = make(chan Level, 2)\nc <- 1\nc <- 2\nclose(c)\nfor v in c {\n got += levelName(v)\n}\ngot", []interface{}{"Level(1)", "Level(2)"}},
+		{"defined-string-elem", "c = make(chan Tag, 1)\nc <- \"x\"\ntagName(<-c)", "Tag(x)"},
+		{"plain-elem-send-defined", "c = make(chan int64, 1)\nc <- lv\nx = <-c\ntypeOf(x)", "int64"},
+		{"defined-elem-goroutine", "c = make(chan Level)\ngo func() {\n for i = 0; i < 3; i++ {\n  c <- i\n }\n close(c)\n}()\nfor v in c {\n got += levelName(v)\n}\ngot", []interface{}{"Level(0)", "Level(1)", "Level(2)"}},
+		{"duration-elem", "time = import(\"time\")\nc = make(chan time.Duration, 1)\nc <- 1500000000\ntoString(<-c)", "1.5s"},
+	}
+	for _, t := range two {
+		pre := "a = make(chan int64, 3)\na <- 1\na <- 2\na <- 3\nclose(a)\nb = make(chan int64, 3)\nb <- 10\nb <- 20\nb <- 30\nb1 = make(chan int64, 1)\nb1 <- 7\nclose(b1)\nd = make(chan int64, 3)\ngot = []\n"
+		ctx, cancel := context.WithTimeout(context.Background(), 10*time.Second)
+		got, err := execute(ctx, pre+t.src, func(e *env.Env) {
+			e.DefineType("Level", Level(0))
+			e.DefineType("Tag", Tag(""))
+			e.Define("lv", Level(7))
+			e.Define("levelName", func(l Level) string { return fmt.Sprintf("Level(%d)", int64(l)) })
+			e.Define("tagName", func(t Tag) string { return "Tag(" + string(t) + ")" })
+			core.Import(e)
+		})
+		cancel()
+		sum.Cases++
+		sum.Runs++
+		if err != nil || !reflect.DeepEqual(norm(got), norm(t.exp)) {
+			sum.NMismatch++
+			g := got
+			if err != nil {
+				g = "error: " + err.Error()
+			}
+			sum.Mismatches = append(sum.Mismatches, Mismatch{What: "one invocation working on several channels / channels of defined element types (" + t.name + ")", Src: pre + t.src, Exp: t.exp, Got: g, Case: SeqCase{Cap: 3, Ops: []string{"two:" + t.name}}})
+		}
+	}
 	b, _ := json.Marshal(sum)
 	os.WriteFile(out, b, 0o644)
 }
+
+// defined scalar types as channel element types
+type Level int64
+type Tag string
 
 func norm(x interface{}) interface{} {
 	b, _ := json.Marshal(x)
